@@ -133,7 +133,8 @@ class BitArray(Bits):
             if len(x) != dtype.bitlength:
                 raise CreationError(f"Can't initialise with value of length {len(x)} bits, "
                                     f"as attribute has length of {dtype.bitlength} bits.")
-            self._bitstore = x._bitstore
+            # The new store may be shared with an immutable source (or the string cache), so take a private copy.
+            self._bitstore = x._bitstore._copy() if x._bitstore.immutable else x._bitstore
             return
 
     def __iadd__(self, bs: BitsType) -> BitArray:
